@@ -82,6 +82,13 @@ def moveCollides (w : World) (old new : Name) : Bool :=
       let (_, st) := w.idx.sanitize target
       Idx.hasKey w.idx.rows st r.linkname)
 
+/-- triggers that are properties of a state (evaluated on the state a call leaves behind):
+    some directory's listing deviates from its true children -/
+def evalPost (s : Sys) : List String :=
+  let w := s.w
+  if w.idx.rows.any (fun r => r.live && r.hdr.typeflag == tfDir && r.linkname == [] && listingDeviates w r.name)
+  then ["listingDeviates"] else []
+
 /-- triggers of a call in a state -/
 def eval (f : FsCfg) (s : Sys) (c : Call) : List String :=
   let w := s.w
